@@ -12,6 +12,10 @@ type Path struct {
 	Blocks []*ssa.BasicBlock
 	Facts  []Fact
 	Ret    *ssa.Return // nil if the path ends in panic / no return
+	// Spliced: for a call of a private helper (satellite) of the function, the instructions of one path through the
+	// helper; Instrs() yields them right after the call, so that a rule that counts or orders events along a path
+	// gives the same answer whether a piece of the function is written inline or extracted.
+	Spliced map[ssa.Instruction][]ssa.Instruction
 }
 
 // Resolve follows phis using the predecessor actually taken on this path.
@@ -57,7 +61,14 @@ func (pa *Path) HasFact(val bool, pred func(ssa.Value) bool) bool {
 func (pa *Path) Instrs() []ssa.Instruction {
 	var out []ssa.Instruction
 	for _, b := range pa.Blocks {
-		out = append(out, b.Instrs...)
+		if pa.Spliced == nil {
+			out = append(out, b.Instrs...)
+			continue
+		}
+		for _, i := range b.Instrs {
+			out = append(out, i)
+			out = append(out, pa.Spliced[i]...)
+		}
 	}
 	return out
 }
@@ -65,6 +76,101 @@ func (pa *Path) Instrs() []ssa.Instruction {
 // enumeratePaths lists entry->return paths; ok=false if more than limit exist
 // (the caller must then fall back to dominance reasoning or fail).
 func enumeratePaths(fn *ssa.Function, limit int) (paths []*Path, ok bool) {
+	paths, ok = enumeratePaths0(fn, limit)
+	if !ok || enumDepth >= 2 || len(satellitesOf(topFunc(fn))) == 0 {
+		return paths, ok
+	}
+	enumDepth++
+	defer func() { enumDepth-- }()
+	top := topFunc(fn)
+	sub := map[*ssa.Function][]*Path{}
+	var out []*Path
+	for _, pa := range paths {
+		cur := []*Path{pa}
+		for _, b := range pa.Blocks {
+			for _, i := range b.Instrs {
+				c, isCall := i.(*ssa.Call)
+				if !isCall {
+					continue
+				}
+				g := c.Call.StaticCallee()
+				if g == nil || g.Blocks == nil || g == fn || !isSatelliteOf(g, top) {
+					continue
+				}
+				hp, seen := sub[g]
+				if !seen {
+					var hok bool
+					hp, hok = enumeratePaths(g, 200)
+					if !hok {
+						hp = nil
+					}
+					sub[g] = hp
+				}
+				if len(hp) == 0 {
+					continue
+				}
+				var next []*Path
+				for _, base := range cur {
+					for _, h := range hp {
+						if !helperPathAgrees(base, c, h) {
+							continue
+						}
+						np := &Path{Blocks: base.Blocks, Ret: base.Ret, Facts: append(append([]Fact{}, base.Facts...), h.Facts...), Spliced: map[ssa.Instruction][]ssa.Instruction{}}
+						for k, v := range base.Spliced {
+							np.Spliced[k] = v
+						}
+						np.Spliced[i] = h.Instrs()
+						next = append(next, np)
+					}
+				}
+				if len(next) > 0 {
+					cur = next
+				}
+				if len(out)+len(cur) > limit {
+					return nil, false
+				}
+			}
+		}
+		out = append(out, cur...)
+	}
+	return out, true
+}
+
+var enumDepth = 0
+
+// helperPathAgrees: the result the helper path h returns does not contradict what the outer path assumes about the
+// call's result (a constant bool against a branch on it, a nil / surely non-nil error against a nil test).
+func helperPathAgrees(outer *Path, c *ssa.Call, h *Path) bool {
+	if h.Ret == nil {
+		return false
+	}
+	for _, f := range outer.Facts {
+		v, want, kind := f.V, f.Val, byte('b')
+		if x, eq, ok := isNilCmp(f.V); ok {
+			v, want, kind = resolveLoad(x), eq == f.Val, 'n'
+		}
+		cc, idx := callResult(v)
+		if cc != c || idx >= len(h.Ret.Results) {
+			continue
+		}
+		res := h.Resolve(unspill(h.Ret.Results[idx]))
+		if kind == 'b' {
+			if b, isC := constBool(res); isC && b != want {
+				return false
+			}
+		} else {
+			if isNilConst(res) && !want {
+				return false
+			}
+			if isSurelyNonNil(res, h.Facts) && want {
+				return false
+			}
+		}
+	}
+	return true
+}
+
+func enumeratePaths0(fn *ssa.Function, limit int) (paths []*Path, ok bool) {
 	if len(fn.Blocks) == 0 {
 		return nil, true
 	}
